@@ -1,0 +1,11 @@
+//go:build verif
+
+package pptx
+
+// Verification hooks for the bounded-work guards (C02). Add-only.
+
+// VerifParagraphLevel returns the level extractParagraph gives a paragraph whose
+// <a:pPr lvl="..."> has this value.
+func VerifParagraphLevel(lvl int) int {
+	return (&Reader{}).extractParagraph(&pXML{PPr: &pPrXML{Lvl: lvl}}).Level
+}
